@@ -225,6 +225,14 @@ pub fn check_ast(a0: &Ast, t: &Tf, st: &mut Stats, mode: Count) {
         let e2 = gen::render_tokens(&tb[t2.len()..].to_vec(), b.case_mask >> 5, b.sep_mask >> 5);
         let case3 = || pair_case(&e1, &e2);
         compare_ext(&e1, &e2, what, st, &case3);
+        // the serialised form of an extension map starts with a separator (C17 re-parses it):
+        // the same pair with a leading separator, '-' on one side and '_' or '-' on the other
+        let mut d1 = vec![b'-'];
+        d1.extend_from_slice(&e1);
+        let mut d2 = vec![if (b.sep_mask >> 2) & 1 == 1 { b'-' } else { b'_' }];
+        d2.extend_from_slice(&e2);
+        let case4 = || pair_case(&d1, &d2);
+        compare_ext(&d1, &d2, what, st, &case4);
     }
 }
 
